@@ -477,3 +477,46 @@ def call_c18(case):
         out.append({"kind": kind, "v": v, "base": base, "rew": r, "exc": exc0 or exc, "cls": _cls(v), "sancls": sancls,
                     "plain": plain(v) and len(v) <= 60})
     return {"variants": out}
+
+
+# --------------------------------------------------------------------------- C17: search_dates
+def call_search(case):
+    """case: {text, languages | null, settings, withlang} -> projected result"""
+    import datetime as _d
+    import re as _r
+    from dateparser.search import search_dates
+    st = decode_settings(case.get("settings"))
+    res = {"exc": "", "isnone": False, "islist": False, "hits": []}
+    try:
+        r = search_dates(case["text"], languages=case.get("languages"), settings=st, add_detected_language=bool(case.get("withlang")))
+    except BaseException as e:  # noqa
+        res["exc"] = type(e).__name__
+        res["msg"] = str(e)[:200]
+        return res
+    if r is None:
+        res["isnone"] = True
+        return res
+    res["islist"] = isinstance(r, list)
+    if not res["islist"]:
+        return res
+    squeeze = lambda s: _r.sub(r"\s+", "", s)      # noqa: E731  "up to whitespace"
+    text = squeeze(case["text"])
+    low = text.lower()
+    pos = 0
+    for h in r:
+        ok = isinstance(h, tuple) and len(h) == (3 if case.get("withlang") else 2) and isinstance(h[0], str) and isinstance(h[1], _d.datetime)
+        if not ok:
+            res["hits"].append({"tuple": False, "blank": True, "first": -1, "seq": -1, "lang": "", "sub": repr(h)[:80]})
+            continue
+        sub = squeeze(h[0])
+        first = text.find(sub)
+        if first < 0:
+            first = low.find(sub.lower())
+        seq = text.find(sub, pos)
+        if seq < 0:
+            seq = low.find(sub.lower(), pos)
+        if seq >= 0:
+            pos = seq + max(1, len(sub))
+        res["hits"].append({"tuple": True, "blank": h[0].strip() == "", "first": first, "seq": seq, "lang": h[2] if case.get("withlang") else "",
+                            "sub": h[0][:80], "dt": dt_to_list(h[1].replace(tzinfo=None))})
+    return res
